@@ -241,3 +241,5 @@ def replay(ck, binp, ok):
     c["judged"] = False
     if codes is not None:
         judge(ck, cases, codes, stats)
+    for fid, what in sorted(stats["first"].items()):
+        ck.known_finding(fid, what)
